@@ -7,7 +7,7 @@
    The interpreter loop (vm.rs execute) does not call the trait methods; it has the same code inline for the heap /
    box / state instructions (BoxAlloc BoxLoad BoxClone BoxRelease BoxStore GetState SetState PushStatePos PopStatePos
    Delay Mem — same functions of heap.rs / StateStorage / Ringbuffer), but its array instructions CLAMP the index
-   where the trait methods index directly.  [vm_step] is what a compiled program executes (instruction level);
+   (saturating cast, then clamp: the contract's index) where the trait methods index directly.  [vm_step] is what a compiled program executes (instruction level);
    the trait-level array methods are transcribed too (vm_prim_array_get / _set) and compared with the real ones.
 
    Faults: an `expect` / slice / overflow panic is [IFault]; an access of the state storage outside its words goes
@@ -37,9 +37,10 @@ Definition vm_alloc_array (a : smap varr) (len esz : N) : smap varr * word :=
 (* ArrayHeap::get_length_array: data.len() / elem_word_size (panics on a zero element size) *)
 Definition va_len (ar : varr) : N := N.of_nat (length (va_data ar)) / va_esz ar.
 
-(* GetArrayElem / SetArrayElem: `if !index_val.is_finite() { 0 } else { (index_val as i64).clamp(0, max_idx) }` *)
-Definition vm_index (idx : word) (len : N) : N :=
-  if f64_is_finite idx then Z.to_N (clampZ (f64_to_i64 idx) 0 (Z.of_N (len - 1))) else 0.
+(* GetArrayElem / SetArrayElem (since commit 15d0817): `(index_val as i64).clamp(0, max_idx as i64) as usize` with
+   max_idx = len.saturating_sub(1); the cast saturates (+inf -> i64::MAX, -inf -> i64::MIN, NaN -> 0), like the
+   i64.trunc_sat_f64_s of the WASM backend *)
+Definition vm_index (idx : word) (len : N) : N := Z.to_N (clampZ (f64_to_i64 idx) 0 (Z.of_N (len - 1))).
 
 (* Instruction::GetArrayElem *)
 Definition vm_array_get (a : smap varr) (raw idx : word) : ires :=
